@@ -355,8 +355,10 @@ class Grammar:
         starting_symbol.__dict__["__gengy__"]["weight"] = weights[starting_symbol]
         nodes = list()
         for node in self.considered_subtypes:
-            node.__dict__["__gengy__"]["weight"] = weights[node]
             nodes.append(node)
+        for node in self.all_nodes:
+            if "__gengy__" in node.__dict__:
+                node.__dict__["__gengy__"]["weight"] = weights[node]
         self.__init__(starting_symbol, nodes, self.expansion_depthing)
         self.register_type(starting_symbol)
         self.preprocess()
@@ -472,6 +474,6 @@ def extract_grammar(
     g = Grammar(starting_symbol, considered_subtypes, expansion_depthing)
     g.register_type(starting_symbol)
     g.preprocess()
-    if any(["weight" in get_gengy(p) for p in considered_subtypes]):
+    if any(["weight" in get_gengy(p) for p in list(considered_subtypes) + list(g.all_nodes)]):
         g.update_weights(1, g.get_weights())
     return g
